@@ -25,7 +25,8 @@ THEOREMS = ["C06_decode_encode", "C06_encode_distinct", "C06_encode_injective", 
             "C06_batch_raises", "C06_batch_defined", "C06_mask_selects_encoding", "C06_pad_is_empty_token",
             "C06_mask_essential", "C06_vocabulary_tie", "C06_reachable_encodable",
             "C06_reachable_encodable_standard",
-            "C06_source_encode_eq", "C06_source_decode_encode", "C06_source_encode_injective", "C06_source_encode_swap", "C06_source_tokens_byte", "C06_source_decode_ok_iff", "C06_source_round_trip"]
+            "C06_source_encode_eq", "C06_source_decode_encode", "C06_source_encode_injective", "C06_source_encode_swap", "C06_source_tokens_byte", "C06_source_decode_ok_iff", "C06_source_round_trip",
+            "C06_source_encode_batch_eq", "C06_source_batch_rows", "C06_source_batch_raises", "C06_source_uninit_irrelevant"]
 MODEL_TARGETS = ["model/Tak.vo", "model/Harness.vo", "model/Lit.vo", "model/Encoding.vo"]
 TRUSTED_BASE = [
     "CPython list indexing incl. negative indices (py_index), torch.tensor/zeros/slice assignment as list operations, "
@@ -649,3 +650,23 @@ _c06_correspondence = correspondence
 def correspondence(run):
     _c06_correspondence(run)
     _t06.correspondence(run)
+
+
+# ---- translator tie (T): the C06_source_* theorems quantify over functions REGENERATED FROM THE SOURCE; t06b's
+# correspondence validates the semantics library and the translation scheme on every run.
+from . import t06b as _t06b  # noqa: E402
+
+MODEL_TARGETS = sorted(set(list(MODEL_TARGETS) + list(_t06b.MODEL_TARGETS)))
+TRUSTED_BASE = list(TRUSTED_BASE) + list(getattr(_t06b, "TRUSTED_BASE", []))
+_c06_t06b_correspondence = correspondence
+_c06_t06b_pregen = pregen
+
+
+def pregen(run):
+    _c06_t06b_pregen(run)
+    return _t06b.pregen(run)
+
+
+def correspondence(run):
+    _c06_t06b_correspondence(run)
+    _t06b.correspondence(run)
